@@ -29,6 +29,9 @@ pub enum WStep {
     Send { from: u8, to: u8, n: u8 },
     SendLoop { from: u8, own_addr: bool },
     TcpWrite { n: u16 },
+    /// drop one guard that was issued by an earlier, already finished Net of
+    /// this thread
+    DropStale,
     Round,
 }
 
@@ -42,6 +45,7 @@ impl WStep {
             WStep::Send { from, to, n } => json!({"s":"send","from":from,"to":to,"n":n}),
             WStep::SendLoop { from, own_addr } => json!({"s":"sendloop","from":from,"own":own_addr}),
             WStep::TcpWrite { n } => json!({"s":"tcpw","n":n}),
+            WStep::DropStale => json!({"s":"dropstale"}),
             WStep::Round => json!({"s":"round"}),
         }
     }
@@ -55,6 +59,7 @@ impl WStep {
             "send" => WStep::Send { from: u("from")?, to: u("to")?, n: u("n")? },
             "sendloop" => WStep::SendLoop { from: u("from")?, own_addr: v["own"].as_bool().unwrap_or(false) },
             "tcpw" => WStep::TcpWrite { n: v["n"].as_u64()? as u16 },
+            "dropstale" => WStep::DropStale,
             "round" => WStep::Round,
             _ => return None,
         })
@@ -68,6 +73,7 @@ impl WStep {
             WStep::Send { from, to, n } => format!("u{from}>{to}x{n}"),
             WStep::SendLoop { from, own_addr } => format!("lo{from}{}", if *own_addr { "o" } else { "" }),
             WStep::TcpWrite { .. } => "tw".into(),
+            WStep::DropStale => "ds".into(),
             WStep::Round => "R".into(),
         }
     }
@@ -76,18 +82,21 @@ impl WStep {
 #[derive(Clone, Debug, PartialEq)]
 pub struct WireScn {
     pub hosts: usize,
+    /// guards left over from a previous simulation on the same thread
+    pub stale: u8,
     pub perm: Vec<RuleSpec>,
     pub steps: Vec<WStep>,
 }
 
 impl WireScn {
     pub fn to_json(&self) -> Value {
-        json!({"kind":"wire","hosts":self.hosts,"perm":self.perm.iter().map(|s| s.to_json()).collect::<Vec<_>>(),
+        json!({"kind":"wire","hosts":self.hosts,"stale":self.stale,"perm":self.perm.iter().map(|s| s.to_json()).collect::<Vec<_>>(),
                "steps": self.steps.iter().map(|s| s.to_json()).collect::<Vec<_>>()})
     }
     pub fn from_json(v: &Value) -> WireScn {
         WireScn {
             hosts: v["hosts"].as_u64().unwrap_or(2) as usize,
+            stale: v["stale"].as_u64().unwrap_or(0) as u8,
             perm: v["perm"].as_array().map(|a| a.iter().map(RuleSpec::from_json).collect()).unwrap_or_default(),
             steps: v["steps"].as_array().map(|a| a.iter().filter_map(WStep::from_json).collect()).unwrap_or_default(),
         }
@@ -95,12 +104,13 @@ impl WireScn {
     pub fn canon(&self) -> String {
         let p: Vec<String> = self.perm.iter().map(|s| s.canon()).collect();
         let s: Vec<String> = self.steps.iter().map(|s| s.canon()).collect();
-        format!("wire:h{}|perm[{}]|{}", self.hosts, p.join(","), s.join(","))
+        format!("wire:h{}{}|perm[{}]|{}", self.hosts, if self.stale > 0 { format!("+stale{}", self.stale) } else { String::new() }, p.join(","), s.join(","))
     }
     pub fn generate(seed: u64) -> WireScn {
         let mut rng = Rng::new(seed);
         let hosts = rng.range(2, 3) as usize;
         let perm: Vec<RuleSpec> = (0..rng.below(3)).map(|_| RuleSpec::generate(&mut rng)).collect();
+        let stale = if rng.chance(0.3) { rng.range(1, 3) as u8 } else { 0 };
         let mut steps = vec![];
         let n = rng.range(8, 40);
         for _ in 0..n {
@@ -119,11 +129,13 @@ impl WireScn {
                     WStep::Send { from: h, to, n: rng.range(1, 4) as u8 }
                 }
                 63..=70 => WStep::SendLoop { from: h, own_addr: rng.coin() },
-                71..=78 => WStep::TcpWrite { n: *rng.pick(&[1u16, 100, 3000]) },
+                71..=76 => WStep::TcpWrite { n: *rng.pick(&[1u16, 100, 3000]) },
+                77..=78 if stale > 0 => WStep::DropStale,
+                77..=78 => WStep::Round,
                 _ => WStep::Round,
             });
         }
-        WireScn { hosts, perm, steps }
+        WireScn { hosts, stale, perm, steps }
     }
 }
 
@@ -158,6 +170,15 @@ fn run_inner(s: &WireScn, log: &Log, specs: &mut BTreeMap<u32, RuleSpec>, an: &m
     let addrs: Vec<Vec<IpAddr>> = (0..s.hosts)
         .map(|h| if h == 2 { vec![ip("10.0.2.1"), ip("10.0.2.2")] } else { vec![ip(&format!("10.0.{h}.1"))] })
         .collect();
+    // an earlier simulation on this thread whose guards outlive its Net
+    let mut stale_guards: Vec<RuleGuard> = vec![];
+    if s.stale > 0 {
+        let w0 = World::new(KernelConfig::default(), &[vec![ip("10.9.0.1")]], |_| {});
+        for _ in 0..s.stale {
+            stale_guards.push(w0.guard().rule(|_: &turmoil_net::Packet| Verdict::Pass));
+        }
+        drop(w0);
+    }
     let round_cell = Rc::new(std::cell::Cell::new(0u64));
     let rc2 = round_cell.clone();
     let clock: Rc<dyn Fn() -> Duration> = Rc::new(move || Duration::from_millis(rc2.get()));
@@ -310,6 +331,12 @@ fn run_inner(s: &WireScn, log: &Log, specs: &mut BTreeMap<u32, RuleSpec>, an: &m
                     let _ = c.on().try_write(&data);
                 }
             }
+            WStep::DropStale => {
+                if let Some(g) = stale_guards.pop() {
+                    drop(g);
+                    an.counters.entry("stale_guard_drops".into()).and_modify(|x| *x += 1).or_insert(1);
+                }
+            }
             WStep::Round => {
                 w.settle();
                 if tcp_client.is_none() {
@@ -348,7 +375,7 @@ fn run_inner(s: &WireScn, log: &Log, specs: &mut BTreeMap<u32, RuleSpec>, an: &m
                         Verdict::Drop => {}
                         Verdict::Pass => w.deliver(p),
                         Verdict::Deliver(d) if d.is_zero() => w.deliver(p),
-                        Verdict::Deliver(d) => held.push((r + d.as_micros().div_ceil(1000) as u64, p)),
+                        Verdict::Deliver(d) => held.push((r.saturating_add(d.as_micros().div_ceil(1000).min(u64::MAX as u128) as u64), p)),
                     }
                 }
                 // accept + drain TCP server side, drain UDP
